@@ -367,7 +367,10 @@ def run(ctx, res):
     okk = "state_sum" in fields_used
     res.ob(okk)
     if not okk:
-        res.finding("sync|text-field", "send_sync_message does not format the state total")
+        if sm.get("argc", 1) > 1 or any(t_["k"] == "call" and (t_["callee"]["path"] or "") in facts.bodies for t_ in (bl_["term"] for bl_ in sm["blocks"])):
+            res.errors.append("send_sync_message takes the value from a parameter or a helper: where the text comes from is not followed by this rule (not decidable)")
+        else:
+            res.finding("sync|text-field", "send_sync_message does not format the state total")
     # nondeterminism sources reachable from run
     cg = cfgmod.CallGraph(facts)
     k_run = facts.body("cpu::Cpu::run")["key"]
